@@ -292,7 +292,7 @@ fn check_ast(ast: &Ast, st: &mut Stats) {
                 fnn.push(n);
             }
         }
-        for shape in ["math::u{}", "str::u{}", "ns::deep::u{}", "u{}.x", "_u{}", "u{}::"] {
+        for shape in ["math::u{}", "str::u{}", "ns::deep::u{}", "u{}.x", "_u{}", "u{}::", "Up{}X", "MATH::U{}", "ü{}ß"] {
             let shaped = |i: usize| shape.replace("{}", &i.to_string());
             for functions in [true, false] {
                 let pool = if functions { &fnn } else { &vn };
@@ -315,7 +315,12 @@ fn check_ast(ast: &Ast, st: &mut Stats) {
                 }
                 let ctx = if functions { base_context(&vn, &[], None) } else { base_context(&[], &fnn, None) };
                 let listed: Vec<String> = (0..pool.len()).map(shaped).collect();
+                for builtins_disabled in [false, true] {
                 let mut c = ctx.clone();
+                if builtins_disabled {
+                    use evalexpr::Context;
+                    c.set_builtin_functions_disabled(true).unwrap();
+                }
                 match guarded(|| t.eval_with_context_mut(&mut c)) {
                     Err(p) => {
                         st.violation(mk("panic", "evaluation returns".into(), format!("panic at {}: {}", p.location, p.message)));
@@ -331,12 +336,13 @@ fn check_ast(ast: &Ast, st: &mut Stats) {
                         };
                         if bad {
                             st.violation(Violation {
-                                input: json!({"source": src, "ast": want.show(), "renamed": if functions {"functions"} else {"variables"}, "to": listed}),
+                                input: json!({"source": src, "ast": want.show(), "renamed": if functions {"functions"} else {"variables"}, "to": listed, "builtins_disabled": builtins_disabled}),
                                 ..mk("unknown-identifier-not-listed", format!("an unknown-identifier error names one of {:?}", listed), format!("{:?}", r))
                             });
                             return;
                         }
                     },
+                }
                 }
             }
         }
@@ -495,6 +501,28 @@ fn sequence_asts(max_seps: usize) -> Vec<Ast> {
             }
         }
     }
+    // every separator skeleton of up to max_seps + 3 separators over three plain element shapes (a variable,
+    // an assignment, a call), so that every local pattern of separators is seen with identifiers around it
+    let plain: Vec<Ast> = vec![v(), Ast::Asg(None, String::new(), Box::new(v())), Ast::Call(String::new(), Box::new(v()))];
+    for n in (max_seps + 1)..=(max_seps + 3) {
+        for mask in 0..(1u32 << n) {
+            for shift in 0..plain.len() {
+                let mut chain: Vec<Ast> = Vec::new();
+                let mut tuple: Vec<Ast> = Vec::new();
+                for i in 0..=n {
+                    tuple.push(plain[(i + shift) % plain.len()].clone());
+                    let sep_is_chain = i < n && (mask >> i) & 1 == 1;
+                    if i == n || sep_is_chain {
+                        let t = std::mem::take(&mut tuple);
+                        chain.push(if t.len() == 1 { t.into_iter().next().unwrap() } else { Ast::Tuple(t) });
+                    }
+                }
+                let mut a = if chain.len() == 1 { chain.into_iter().next().unwrap() } else { Ast::Chain(chain) };
+                name_leaves(&mut a, None);
+                out.push(a);
+            }
+        }
+    }
     out
 }
 
@@ -576,7 +604,7 @@ pub fn run(cfg: &Cfg) -> Report {
     Report {
         property: ID,
         level: "exploration",
-        rule: format!("every AST with <= {k} operator nodes over the full operator alphabet (identifiers in every leaf, assignment-target and function position, named in source order) plus {nseq} sequence-shaped ASTs (`,`/`;` skeletons with <= {seq_n} separators over 13 element shapes incl. absent elements, `()`, nested sequences); per AST: 5 immutable + 5 mutable iterators against the occurrence list of the AST, every consumption style (for_each/fold, last, count, nth after 0..3 calls of next()) against next(), unknown-identifier errors against the lists (also after renaming all functions, or all variables, to names with namespaces, dots and underscores), and every swap of two variable names / two function names / a name with a fresh name / a name with a name in use in the other namespace applied through the mutable iterators and to the context. Plus scaling families (sums, products, tuples, call arguments, call chains, assignment chains, prefix chains, statement sequences with n identifiers for every n in 1..20 and up to 129 / 1..40 and up to 400). Non-trivial = at least two identifier occurrences; distinct by normalised tree"),
+        rule: format!("every AST with <= {k} operator nodes over the full operator alphabet (identifiers in every leaf, assignment-target and function position, named in source order) plus {nseq} sequence-shaped ASTs (`,`/`;` skeletons with <= {seq_n} separators over 13 element shapes incl. absent elements, `()`, nested sequences, and every skeleton of up to three more separators over plain variables, assignments and calls); per AST: 5 immutable + 5 mutable iterators against the occurrence list of the AST, every consumption style (for_each/fold, last, count, nth after 0..3 calls of next()) against next(), unknown-identifier errors against the lists (also after renaming all functions, or all variables, to names with namespaces, dots, underscores, upper-case and non-ASCII letters, with builtins enabled and disabled), and every swap of two variable names / two function names / a name with a fresh name / a name with a name in use in the other namespace applied through the mutable iterators and to the context. Plus scaling families (sums, products, tuples, call arguments, call chains, assignment chains, prefix chains, statement sequences with n identifiers for every n in 1..20 and up to 129 / 1..40 and up to 400). Non-trivial = at least two identifier occurrences; distinct by normalised tree"),
         nontrivial_set: "nontrivial",
         exhaustive: true,
         bound_completed: format!("AST size {k}; sequences with {seq_n} separators"),
